@@ -101,6 +101,9 @@ func (c *Ctx) forwardedHelper(fn *ssa.Function, p *Path) (*ssa.Call, []string) {
 
 // substitute closure bindings: {^op:%s} with the bound operator's name from toString
 func (c *Ctx) bindSkeleton(s string, e *TableEntry) string {
+	if e != nil && e.Fn != nil && e.Recv != nil {
+		return c.bindReceiver(s, e)
+	}
 	if e == nil || e.Fn == nil || len(e.Bound) == 0 {
 		return s
 	}
@@ -124,6 +127,37 @@ func (c *Ctx) bindSkeleton(s string, e *TableEntry) string {
 		s = strings.ReplaceAll(s, "{^"+fv.Name()+"}", name)
 	}
 	return s
+}
+
+var paramRe = regexp.MustCompile(`\$(\d+)`)
+
+// bindReceiver: the render function is a bound method value (compound{op: expr.And}.render): fields of the
+// receiver literal are substituted like closure bindings, and the remaining parameters are renumbered so
+// that the first operand is $0 again.
+func (c *Ctx) bindReceiver(s string, e *TableEntry) string {
+	ts := c.readTable(pkgExpr, "toString").byKey()
+	for f, v := range structLiteralFields(e.Recv) {
+		bk := c.key(v, nil)
+		name := bk
+		if te := ts[bk]; te != nil {
+			if sv, ok := constStringVal(te.Val); ok {
+				name = sv
+			}
+		}
+		if sv, ok := constStringVal(c.resolve(v, nil)); ok {
+			name = sv
+		}
+		for _, verb := range []string{":%s", ":%v", ""} {
+			s = strings.ReplaceAll(s, "{$0."+f+verb+"}", name)
+		}
+	}
+	return paramRe.ReplaceAllStringFunc(s, func(m string) string {
+		n := atoi(m[1:])
+		if n == 0 {
+			return m
+		}
+		return fmt.Sprintf("$%d", n-1)
+	})
 }
 
 func (c *Ctx) pgPreamble(r *Report, rule string) *PGTable {
